@@ -203,3 +203,61 @@ pub fn gen_case_scheduled(seed: u64, k: u64, tier: Tier) -> Case {
   }
   case_of(&c, direct, vec![(format!("jsr_max_outstanding_{:02}", max_out.min(12)), 1)])
 }
+
+/// C13 (b): a registry published once with and once without embedded module information gives the
+/// same graph - modules, dependencies, redirects, errors - whenever the embedded information was
+/// produced by this analyser from those sources (and the file cache holds nothing else).
+pub fn gen_case_modinfo(seed: u64, k: u64) -> Case {
+  let mut rng = Rng::for_case(seed ^ 0x4a53_5213, k);
+  let cfg = JGenCfg { modinfo: 100, partial_info: 0, stale_info: 0, dirty_cache: false, manifest_faults: 0, faults: 0, locker: 0, weird_exports: 3, stale_meta: 5, ..Default::default() };
+  let c = gen_jcase(&mut rng, &cfg);
+  // the same registry without embedded module graphs
+  let mut plain = c.clone();
+  let mut stripped = 0;
+  for (url, e) in plain.world.entries.iter_mut().chain(plain.world.only_entries.iter_mut()).chain(plain.world.reload_entries.iter_mut()) {
+    if !url.ends_with("_meta.json") {
+      continue;
+    }
+    if let crate::world::Entry::Module { raw: Some(bytes), .. } = e {
+      if let Ok(serde_json::Value::Object(mut doc)) = serde_json::from_slice::<serde_json::Value>(bytes) {
+        if doc.remove("moduleGraph2").is_some() | doc.remove("moduleGraph1").is_some() {
+          stripped += 1;
+        }
+        *bytes = serde_json::to_vec(&serde_json::Value::Object(doc)).unwrap();
+      }
+    }
+  }
+  let with_info = real_jbuild(&c);
+  let without = real_jbuild(&plain);
+  let mut direct = vec![];
+  let a = serde_json::to_value(&with_info.graph).unwrap();
+  let b = serde_json::to_value(&without.graph).unwrap();
+  if a != b {
+    // name the first differing module / redirect / package entry
+    let describe = |v: &serde_json::Value| -> std::collections::BTreeMap<String, String> {
+      let mut m = std::collections::BTreeMap::new();
+      if let Some(ms) = v.get("modules").and_then(|x| x.as_array()) {
+        for x in ms {
+          m.insert(format!("module {}", x.get("specifier").and_then(|s| s.as_str()).unwrap_or("?")), x.to_string());
+        }
+      }
+      for key in ["redirects", "packages", "roots"] {
+        m.insert(key.to_string(), v.get(key).map(|x| x.to_string()).unwrap_or_default());
+      }
+      m
+    };
+    let (da, db) = (describe(&a), describe(&b));
+    let mut what = String::new();
+    for key in da.keys().chain(db.keys()) {
+      if da.get(key) != db.get(key) {
+        what = format!("{}: with embedded info {} | parsed from source {}", key, da.get(key).map(|s| &s[..s.len().min(300)]).unwrap_or("<absent>"), db.get(key).map(|s| &s[..s.len().min(300)]).unwrap_or("<absent>"));
+        break;
+      }
+    }
+    direct.push(format!("the graph built from embedded module information differs from the graph built by parsing the same sources: {}", what));
+  }
+  let used_info = with_info.log.iter().filter(|l| l.cache_setting == "only" && !l.specifier.ends_with("meta.json")).count();
+  let mut case = case_of(&c, direct, vec![(format!("c13b_manifests_with_info_{}", stripped.min(6)), 1), (format!("c13b_probed_files_{}", used_info.min(8)), 1)]);
+  case.nontrivial = used_info >= 1 && with_info.graph.modules().count() >= 2;
+  case
+}
